@@ -83,7 +83,7 @@ def fam_tolerance(rnd, n):
     res = []
     for i in range(n):
         ns = rnd.choice([3, 4, 4, 5, 6])
-        conc = rnd.choice([0, 1, 2, 2, 3])      # 0: Concurrency unset, which means 1
+        conc = rnd.choice([0, -1, 1, 2, 2, 3])      # 0: Concurrency unset, which means 1; a negative value is "less than one" too
         tol = rnd.choice([-1, -2, 0, 0, 1, 2])      # any negative value allows every failure
         sh = shape([blk([rnd.choice([1, 1, 2]) for _ in range(ns)], conc, tol, g=rnd.choice([{}, {"post": 1, "deferred": 1}, {"deferred": 1}]))],
                    pg=rnd.choice([{}, {"deferred": 1}, {"post": 1}]), retries=rnd.choice([0, 0, 1]))
